@@ -6,6 +6,7 @@ mod c01;
 mod c02;
 mod c03;
 mod c04;
+mod c05;
 mod c06;
 mod c08;
 mod c09;
@@ -36,7 +37,7 @@ pub struct Check {
 }
 
 fn registry() -> Vec<Check> {
-	vec![c01::CHECK, c02::CHECK, c03::CHECK, c04::CHECK, c06::CHECK, c08::CHECK, c09::CHECK, c10::CHECK, c11::CHECK, c12::CHECK]
+	vec![c01::CHECK, c02::CHECK, c03::CHECK, c04::CHECK, c05::CHECK, c06::CHECK, c08::CHECK, c09::CHECK, c10::CHECK, c11::CHECK, c12::CHECK]
 }
 
 fn usage() -> ! {
